@@ -63,10 +63,12 @@ let words_str ws = String.concat " " (("words " ^ string_of_int (List.length ws)
 
 (* what the operating system part of a launch shows (computed here, not in Coq):
    norm / fd0: the child echoes its argv and environment, copies stdin as scripted, exits with the code;
-   again: the same, and a second open()/start() (all four overloads) on the running Process fails with EINVAL (22);
+   again: the same, and a second open()/start() (all four overloads) on the running Process is refused: each returns
+          false (first section, model and reference).  The errno it leaves is not named by the property text: the
+          model (the code as it is: EINVAL = 22) predicts it in a second section, the reference prints none;
    noexec: the executable does not exist - nothing on stdout, "<executable>: No such file or directory\n"
            on stderr, exit code EXIT_FAILURE *)
-let exec_str (x : exec_call) code mode size profile =
+let exec_str ?(is_model = false) (x : exec_call) code mode size profile =
   let out = if mode land 1 <> 0 then size else 0 and err = if mode land 2 <> 0 then size else 0 in
   if profile = "noexec" then
     Printf.sprintf "L ok argv=! env=! join=1 exit=1 running=0 out=0:ok err=%d:ok io=ok"
@@ -74,7 +76,7 @@ let exec_str (x : exec_call) code mode size profile =
   else
     Printf.sprintf "L ok argv=%s env=%s join=1 exit=%d running=0 out=%d:ok err=%d:ok io=ok%s"
       (hexlist x.x_args) (match x.x_env with None -> "inherit" | Some l -> hexlist l) code out err
-      (if profile = "again" then " again=0:22,0:22,0:22,0:22" else "")
+      (if profile = "again" then " again=0,0,0,0" ^ (if is_model then " | errno=22,22,22,22" else "") else "")
 
 (* Map<String,String> hands the environment over in key order (C01); keys are compared as byte strings *)
 let sort_env env = List.stable_sort (fun (k1, _) (k2, _) -> compare (List.map int_of_z k1) (List.map int_of_z k2)) env
@@ -93,7 +95,7 @@ let launch is_model st toks =
         | "argv0" -> launch_argv first (nat_of_int (List.length st.strs + 1)) (List.map (fun s -> Some s) st.strs @ [None]) st.env
         | _ -> launch_argv first (nat_of_int (List.length st.strs)) (List.map (fun s -> Some s) st.strs) st.env in
       match r with
-      | Ok x -> emit (exec_str x code mode size profile)
+      | Ok x -> emit (exec_str ~is_model:true x code mode size profile)
       | Oob -> emit "! oob"
       | Fuel -> emit "! timeout"
     end else begin
@@ -164,8 +166,9 @@ let ev_str st (e : kev) = match e with
   | KRead fd -> "read:" ^ name_of st (int_of_z fd)
   | KWrite fd -> "write:" ^ name_of st (int_of_z fd)
 
+(* results are printed as the caller sees them (ProcSpec.seen is applied first): a refusal is a failed call *)
 let res_str (r : pres) = match r with
-  | RRefused -> "refused"
+  | RRefused -> "refused"            (* not reached: seen never leaves RRefused *)
   | RBool b -> if b then "1" else "0"
   | RJoin c -> "1:" ^ string_of_int (int_of_z c)
   | RIo n -> let n = int_of_z n in if n > 0 then "data" else if n = 0 then "eof" else "err"
@@ -223,7 +226,13 @@ let pobj_op is_model st opname (args : string list) =
   st.lst <- lst';
   let running l = (match l with LIdle -> 0 | LRunning _ -> 1) in
   (* join() without arguments does not hand out the exit code *)
-  let res_text r = if opname = "pjoin0" then (match r with RJoin _ -> "1" | _ -> res_str r) else res_str r in
+  let res_text r = let r = seen op r in if opname = "pjoin0" then (match r with RJoin _ -> "1" | _ -> res_str r) else res_str r in
+  (* model-only: the errno class a failed call leaves - EINVAL where the object itself declines, the kernel's otherwise *)
+  let errno_class (r : pres) = (match r with
+      | RRefused -> "EINVAL"
+      | RBool false when opname <> "prun" -> "other"
+      | RIo n when int_of_z n < 0 -> "other"
+      | _ -> "-") in
   (* noted, outside the statement: after open() with a failing vfork or a destructor whose join fails
      descriptors may stay open; read(buffer, length)/write() without their stream go to descriptor 0 *)
   (if (opname = "popen" && has "vforkfail" && before_lst = LIdle) || (opname = "pdel" && has "waitfail" && before_lst <> LIdle)
@@ -245,9 +254,9 @@ let pobj_op is_model st opname (args : string list) =
         | _ -> a) 0 new_evs in
     let evs = List.map (ev_str st) new_evs in
     let nzb x = if int_of_z x <> 0 then 1 else 0 in
-    emit (Printf.sprintf "%s %s run %d held %d stray %d in0 %d | out=%d err=%d in=%d | %s" opname (res_text r)
+    emit (Printf.sprintf "%s %s run %d held %d stray %d in0 %d | out=%d err=%d in=%d errno=%s | %s" opname (res_text r)
             (nzb s'.p_pid) (List.length w'.w_fds) (List.length w'.w_stray) in0
-            (nzb s'.p_out) (nzb s'.p_err) (nzb s'.p_in)
+            (nzb s'.p_out) (nzb s'.p_err) (nzb s'.p_in) (errno_class r)
             (if evs = [] then "-" else String.concat "," evs))
   end else
     emit (Printf.sprintf "%s %s run %d held %s stray 0 in0 %s" opname (if stream_open then res_text lr else "?") (running lst')
@@ -274,7 +283,7 @@ let pobj_wait is_model st opname =
   if is_model then begin
     let s = st.pobj and w = st.world in
     let nzb x = if int_of_z x <> 0 then 1 else 0 in
-    emit (Printf.sprintf "%s %s run %d held %d stray %d in0 0 | out=%d err=%d in=%d | %s" opname r (nzb s.p_pid)
+    emit (Printf.sprintf "%s %s run %d held %d stray %d in0 0 | out=%d err=%d in=%d errno=- | %s" opname r (nzb s.p_pid)
             (List.length w.w_fds) (List.length w.w_stray) (nzb s.p_out) (nzb s.p_err) (nzb s.p_in) !log)
   end else
     emit (Printf.sprintf "%s %s run %d held %s stray 0 in0 0" opname r running
